@@ -74,3 +74,15 @@ Theorem C19_dh_symmetric_partial :
   forall a b, vk CS a -> vk CS b -> k_dh (ke CS) (k_pub (ke CS) a) b = k_dh (ke CS) (k_pub (ke CS) b) a.
 Proof. intros E Sc Pk Sk CS GL. exact (g_dh_sym CS GL). Qed.
 Print Assumptions C19_dh_symmetric_partial.
+
+(* the encoding half of GroupLaws (samplers, hash-to-scalar, comparison, seeded key derivation: every generated or
+   derived key is a valid key whose encoding round-trips) is PROVED for each of the 20 suites; what stays assumed
+   about the curves is CurveLaws alone *)
+From OKE Require Import GroupSplit.
+Theorem C19_generated_and_derived_keys_are_valid : all_suites (fun _ _ _ _ CS => EncodingLaws CS).
+Proof. exact encoding_laws_20. Qed.
+Print Assumptions C19_generated_and_derived_keys_are_valid.
+
+Theorem C19_only_curve_arithmetic_is_assumed : all_suites (fun _ _ _ _ CS => CurveLaws CS -> GroupLaws CS).
+Proof. exact group_laws_20. Qed.
+Print Assumptions C19_only_curve_arithmetic_is_assumed.
